@@ -251,9 +251,21 @@ impl Global {
         // overwrite the global epoch with the same value. This is true because `try_advance` was
         // called from a thread that was pinned in `global_epoch`, and the global epoch cannot be
         // advanced two steps ahead of it.
+        //
+        // However, the caller may have re-announced a newer epoch during the scan above (unlinking a
+        // removed participant defers its destruction, which may overflow the local bag in the
+        // middle of a collection), after which the global epoch can be more than one step ahead.
+        // So advance only from `global_epoch`, never moving the global epoch backwards.
         let new_epoch = global_epoch.successor();
-        self.epoch.store(new_epoch, Ordering::Release);
-        new_epoch
+        match self.epoch.compare_exchange(
+            global_epoch,
+            new_epoch,
+            Ordering::Release,
+            Ordering::Relaxed,
+        ) {
+            Ok(_) => new_epoch,
+            Err(current) => current,
+        }
     }
 }
 
